@@ -3,6 +3,7 @@ import GateryModel.C18.Literal
 import GateryModel.C18.BigInt
 import GateryModel.C18.CompareExt
 import GateryModel.C18.LiteralProof
+import GateryModel.C18.SigImportLemmas
 /-!
 # C18 — property theorems
 
@@ -248,5 +249,23 @@ example : ∃ src : P1, src.WF ∧ src.size = 70 ∧
   refine ⟨(⟨0, []⟩ : P1).apply (.resize 70), hsrc, rfl, ?_⟩
   refine ⟨trivial, ⟨by decide, by decide⟩, ?_, ?_, ⟨hsrc, ?_, ?_⟩, ?_, trivial⟩ <;>
     simp [P1.apply, Op.valid]
+
+/-! ### integers through the simulation signal handles (`SigHandle.cpp`) -/
+
+/-- `simu(x) = (std::int64_t) v` stores `v` modulo `2^w` in two's complement in a signal of **any** width `w` (sign extension above
+    bit 63): the statements as written (`Sig.importI64`: VALUE plane prefilled with the sign bit, word 0 overwritten) equal the
+    specification bit for bit. -/
+theorem sighandle_import_int64 (w : Nat) (v : Int) (hlo : -(2:Int)^63 ≤ v) (hhi : v < (2:Int)^63) (i : Nat) :
+    Sig.importI64 w v i = Sig.specImport w v i := Sig.importI64_spec w v hlo hhi i
+
+/-- `simu(x) = (std::uint64_t) v` stores `v` zero extended, any width -/
+theorem sighandle_import_uint64 (w v : Nat) (hv : v < 2^64) (i : Nat) : Sig.importU64 w v i = Sig.specImport w (v : Int) i :=
+  Sig.importU64_spec w v hv i
+
+/-- `(std::int64_t) simu(x)` is the signed reading of the `w ≤ 64` bits -/
+theorem sighandle_export_int64 (w : Nat) (hw : w ≤ 64) (bits : Nat → Bool) : Sig.exportI64 w bits = Sig.specSigned w bits :=
+  Sig.exportI64_spec w hw bits
+
+example : (List.range 70).map (Sig.importI64 70 (-5)) = (List.range 70).map (Sig.specImport 70 (-5)) ∧ Sig.importI64 70 (-5) 69 = true := by decide
 
 end Gatery.C18.Props
